@@ -220,6 +220,7 @@ DataSet == {<<>>} \cup [1..1 -> Bytes]
 Do(op, i, k, m, d, n, n2) ==
   LET a == Arg(i, k, m, d, n, n2) IN
   /\ InDomain(op, st, a)
+  /\ Result(op, st, a).r \in Int          \* the answer is defined on every operation instance in the domain
   /\ \E o \in Step(op, st, a) : st' = o
 Init == st = [Init0 EXCEPT !.ext = ExtInit]
 Next == \E i \in Vars :
